@@ -360,7 +360,7 @@ def run_case(case: dict, ctx: dict) -> dict:
                 ro = r.sub("op", i)
                 t = {"lang": base_lang, "templates": base_tpl, "pp": dict(base_pp)}  # type: typing.Dict[str, typing.Any]
                 if ro.chance(1, 5):
-                    t["lang"] = ro.choice(LANGS)
+                    t["lang"] = ro.choice(LANGS + ["html"])
                 if ro.chance(1, 5):
                     t["templates"] = ro.choice([None, "blanky", "by_kind"])
                 if ro.chance(1, 6):
